@@ -48,7 +48,12 @@ Record tyenv : Type := mkTyenv {
   g_fns : list (text * ty);             (* verification functions with their return type *)
   g_enums : list (text * list text);    (* enumerations with their literals *)
   g_classes : list (text * (list (text * ty) * list (text * ty)));  (* properties, methods *)
-  g_naming : list (nkind * text * text)
+  g_naming : list (nkind * text * text);
+  g_args : list (text * text);          (* arguments of the transpiled function with their SDK
+                                           names: [(self, that)] for an invariant, the
+                                           [_argument_name_set] of a verification function *)
+  g_check_reserved : bool               (* [_InvariantTranspiler] refuses loop variables that
+                                           shadow [that] or the modules *)
 }.
 
 Fixpoint pyname_in (l : list (nkind * text * text)) (k : nkind) (n : text) : option text :=
@@ -62,7 +67,7 @@ Definition pyname (G : tyenv) (k : nkind) (n : text) : outcome text unit :=
 
 Definition push_var (G : tyenv) (x : text) (t : ty) : tyenv :=
   mkTyenv ((x, t) :: g_locals G) (x :: g_loopvars G) (g_consts G) (g_fns G) (g_enums G)
-          (g_classes G) (g_naming G).
+          (g_classes G) (g_naming G) (g_args G) (g_check_reserved G).
 
 (** The inferred type of an expression, as far as [transform_member] needs it (Optional is
     ignored, as [beneath_optional] does). *)
@@ -141,16 +146,19 @@ Definition target_const (c : const) : pyexpr :=
 Definition reserved_var (p : text) : bool :=
   text_eqb p (s2l "that") || text_eqb p (s2l "aas_types") || text_eqb p (s2l "aas_constants").
 
-(** [_InvariantTranspiler.transform_name] *)
+(** [_InvariantTranspiler.transform_name] and [_TranspilableVerificationTranspiler.transform_name]:
+    local variables, then the arguments, then constants, verification functions, enumerations. *)
 Definition transpile_name (G : tyenv) (x : text) : outcome pyexpr unit :=
   if mem_text x (g_loopvars G) then
     match pyname G NVar x with
-    | Ok p => if reserved_var p then err   (* would shadow the instance or a module *)
+    | Ok p => if g_check_reserved G && reserved_var p then err   (* would shadow the instance or a module *)
               else Ok (PName p)
     | Err e => Err e | Crash k => Crash k
     end
-  else if text_eqb x (s2l "self") then Ok (PName (s2l "that"))
-  else if mem_text x (g_consts G) then
+  else match lookup x (g_args G) with
+  | Some p => Ok (PName p)          (* arguments shadow the globals of the meta-model *)
+  | None =>
+  if mem_text x (g_consts G) then
     match pyname G NConst x with
     | Ok p => Ok (PAttribute (PName (s2l "aas_constants")) p)
     | Err e => Err e | Crash k => Crash k
@@ -167,7 +175,8 @@ Definition transpile_name (G : tyenv) (x : text) : outcome pyexpr unit :=
                end
            | None => err
            end
-       end.
+       end
+  end.
 
 (** [transform_member]: which naming applies, or an error. *)
 Definition member_name (G : tyenv) (inst : expr) (n : text) : outcome text unit :=
